@@ -1,6 +1,7 @@
 (** C15 — Knowledge base lookups, order and version stay consistent.
     Statements only; proofs in Proofs/KBProofs.v. *)
-From RRE Require Import Base.Sx Model.KB Proofs.KBProofs Proofs.KBRefineProofs.
+From RRE Require Import Base.Sx Model.KB Proofs.KBProofs Proofs.KBRefineProofs Proofs.KBLinProofs.
+From Coq Require Import Permutation.
 From Coq Require Import Sorting.Sorted.
 Open Scope Z_scope.
 
@@ -51,6 +52,28 @@ Theorem C15_spec_listing : forall s, NoDup (map s_seq (srules s)) ->
   /\ StronglySorted (fun a b => before a b = true) (fold_left (fun acc x => sinsert x acc) (srules s) []).
 Proof. exact spec_listing_sorted. Qed.
 Print Assumptions C15_spec_listing.
+
+(** The checker applied to concurrent histories of the real KnowledgeBase decides linearizability (Proofs/KBLinProofs.v): with
+    enough fuel (the monitor passes one more than the number of events) [lin] answers true exactly when the observed events
+    (operation, observed result, invocation and response instants) can be arranged in a sequence that is a permutation of
+    them, respects real time (nothing is placed after an event that it responded before), and in which the sequential
+    specification - the one C15_sequential_refinement ties to the model - returns every event's observed result.
+    So a run accepted by the monitor IS linearizable, and a linearizable run is never reported (no false alarm). *)
+Theorem C15_lin_checker_decides : forall fuel k p, (length p <= fuel)%nat ->
+  (lin fuel k p = true <->
+   exists s, Permutation s p /\ rt s = true /\ replay k s = true).
+Proof. intros fuel k p H. split; [apply lin_sound|apply lin_complete; exact H]. Qed.
+Print Assumptions C15_lin_checker_decides.
+
+(** non-vacuity: an Add overlapping a Version query that already saw version 1 is linearizable (Add first); the same
+    query having responded BEFORE the Add was invoked is not *)
+Example C15_lin_example :
+  let add := {| c_op := Add 1 5 0; c_res := enc_res (RBool true); c_inv := 0; c_resp := 10 |} in
+  let v_overlap := {| c_op := Version; c_res := enc_res (RNum 1); c_inv := 5; c_resp := 6 |} in
+  let v_before := {| c_op := Version; c_res := enc_res (RNum 1); c_inv := 1; c_resp := 2 |} in
+  let add_late := {| c_op := Add 1 5 0; c_res := enc_res (RBool true); c_inv := 3; c_resp := 10 |} in
+  lin 3 sinit [v_overlap; add] = true /\ lin 3 sinit [v_before; add_late] = false.
+Proof. vm_compute. split; reflexivity. Qed.
 
 (** non-vacuity: ties keep insertion order; removal and re-add under the same name *)
 Example C15_example :
